@@ -55,6 +55,23 @@ class C15(Property):
             data = "\n".join(ls).encode()
             cases.append(Case("dec " + hexs(data), prop=False, tags=("dec",)))
             cases.append(Case("c15 " + hexs(data), corr=False, tags=("closed-form",)))
+        # many tied start times in unsorted files (a non-stable sort only shows beyond ~20 elements)
+        for _ in range(150 if tier == "quick" else 5000):
+            k = rng.randint(21, 80)
+            times = [rng.choice([0, 1000, 2000, 3000, 1000.5]) for _ in range(rng.randint(2, 5))]
+            ls = ["osu file format v14", "", "[General]", f"Mode: {rng.randint(0, 3)}", "", "[TimingPoints]", "0,500,4,2,7,60,1,0", "", "[HitObjects]"]
+            for i in range(k):
+                t = rng.choice(times)
+                kind = rng.choice(["c", "c", "c", "n", "s"])
+                if kind == "c":
+                    ls.append(f"{i},192,{t},1,0,{rng.choice(['0:0:0:0:', '0:0:3:0:', '1:2:5:0:', '0:0:0:40:'])}")
+                elif kind == "n":
+                    ls.append(f"256,192,{t},12,0,{t + 500},0:0:2:0:")
+                else:
+                    ls.append(f"{i},100,{t},2,0,L|{i + 50}:100,1,50")
+            data = "\n".join(ls).encode()
+            cases.append(Case("dec " + hexs(data), prop=False, tags=("ties-dec",)))
+            cases.append(Case("c15 " + hexs(data), corr=False, tags=("ties",)))
         for f, d in bundled()[: (8 if tier == "quick" else 1000)]:
             cases.append(Case("c15 " + hexs(d), corr=False, tags=("bundled",)))
         m = 400 if tier == "quick" else 20000
